@@ -121,15 +121,20 @@ def hasSubst : List Char → Bool
 /-- what a string node denotes: its value, and whether evaluation substitutes variables into it -/
 def denote (n : StrNode) : List Char × Bool := (n.value, n.fstr && hasSubst n.value)
 
-/-- `TrimWhitespaces.visit_StringNode`: `excl` is the list in
-`not any(x in node.value for x in [...])`, `fmark` the list of the f-string test (`'@'`). -/
+/-- first rule of `TrimWhitespaces.visit_StringNode`: `excl` is the list in
+`not any(x in node.value for x in [...])` -/
+def simplifyMulti (excl : List Char) (n : StrNode) : StrNode :=
+  if n.multi && !(excl.any (fun x => n.value.contains x)) then
+    { n with multi := false, value := decodeEscapes n.raw }
+  else n
+
+/-- second rule: `fmark` is the marker list of the f-string test (`'@'`) -/
+def simplifyF (fmark : List Char) (n : StrNode) : StrNode :=
+  if n.fstr && !(fmark.any (fun x => n.value.contains x)) then { n with fstr := false } else n
+
+/-- `TrimWhitespaces.visit_StringNode` (mformat.py:366-377) -/
 def simplify (excl fmark : List Char) (on : Bool) (n : StrNode) : StrNode :=
-  if !on then n else
-  let n1 : StrNode :=
-    if n.multi && !(excl.any (fun x => n.value.contains x)) then
-      { n with multi := false, value := decodeEscapes n.raw }
-    else n
-  if n1.fstr && !(fmark.any (fun x => n1.value.contains x)) then { n1 with fstr := false } else n1
+  if !on then n else simplifyF fmark (simplifyMulti excl n)
 
 /-- `RawPrinter.visit_StringNode` -/
 def printStr (n : StrNode) : List Char :=
@@ -142,8 +147,11 @@ def reparse (n : StrNode) : StrNode :=
 
 /-- the simplified literal still lexes as one string token and denotes the same string -/
 def Preserves (excl fmark : List Char) (n : StrNode) : Prop :=
-  let m := simplify excl fmark true n
-  (m.multi = false → plainLexable m.raw = true) ∧ denote (reparse m) = denote n
+  ((simplify excl fmark true n).multi = false → plainLexable (simplify excl fmark true n).raw = true) ∧
+  denote (reparse (simplify excl fmark true n)) = denote n
+
+instance (excl fmark : List Char) (n : StrNode) : Decidable (Preserves excl fmark n) := by
+  unfold Preserves; infer_instance
 
 /-! ### natural path sort -/
 
